@@ -32,7 +32,11 @@ func finish(spec *Spec, tier string, seed int, obs []*Obligation, results map[st
 				continue
 			}
 			n++
-			cases = append(cases, &ReplayCase{ID: fmt.Sprintf("c%d", n), Prop: spec.Property, Ob: o.Name, Pkg: o.Pkg, Entry: o.Entry, Kind: v.Kind, Msg: v.Msg, Site: v.Site, Vals: v.Nondets, Notes: v.Notes, Quick: tier != "thorough", Seed: uint64(seed)})
+			rc := &ReplayCase{ID: fmt.Sprintf("c%d", n), Prop: spec.Property, Ob: o.Name, Pkg: o.Pkg, Entry: o.Entry, Kind: v.Kind, Msg: v.Msg, Site: v.Site, Vals: v.Nondets, Notes: v.Notes, Quick: tier != "thorough", Seed: uint64(seed)}
+			if o.Threads && v.Kind != "race" {
+				rc.Repeat = 30000 // the interleaving cannot be forced natively: stress it
+			}
+			cases = append(cases, rc)
 		}
 		for i, w := range r.rep.Witnesses {
 			if i >= 2 {
